@@ -84,6 +84,11 @@ func (fv *FV) execCall(fr *Frame, st *State, x *ssa.Call) []Outcome {
 		}
 		c := fv.ifaceContract(common)
 		if c == nil {
+			sig := common.Method.Type().(*types.Signature)
+			if fv.externalOpaque(common.Value.Type(), argTypes[1:]) {
+				name := fmt.Sprintf("%s.%s", common.Value.Type(), common.Method.Name())
+				return fv.opaqueExternalCall(st, name, sig.Results())
+			}
 			fv.fail("no contract for interface method %s.%s (called in %s at %s)", common.Value.Type(), common.Method.Name(), fr.fn.Name(), fv.pos(x.Pos()))
 		}
 		sig := common.Method.Type().(*types.Signature)
@@ -201,8 +206,70 @@ func (fv *FV) callStatic(fr *Frame, st *State, fn *ssa.Function, args []Value, b
 		nf := fv.newFrame(fn, fr.depth+1, false)
 		return fv.execBody(nf, st, args, bindings)
 	}
+	if !fv.P.InRepo(fn) {
+		var pts []types.Type
+		for _, p := range fn.Params {
+			pts = append(pts, p.Type())
+		}
+		if fv.externalOpaque(nil, pts) {
+			return fv.opaqueExternalCall(st, full, fn.Signature.Results())
+		}
+	}
 	fv.fail("call to %s (from %s at %s) has no contract", full, fr.fn.Name(), fv.pos(x.Pos()))
 	return nil
+}
+
+// externalOpaque: a function or interface method from outside the repository that has no assumed contract may be
+// treated as opaque (arbitrary results, no effect on anything the repository can observe) only if it cannot reach the
+// repository's mutable memory through its arguments: basic values, strings, and objects of non-repository types.
+func (fv *FV) externalOpaque(recv types.Type, params []types.Type) bool {
+	safe := func(t types.Type) bool {
+		inRepo := func(n *types.Named) bool {
+			return n.Obj().Pkg() != nil && strings.HasPrefix(n.Obj().Pkg().Path(), repoModule)
+		}
+		switch u := t.(type) {
+		case *types.Named:
+			if inRepo(u) {
+				return false
+			}
+			switch u.Underlying().(type) {
+			case *types.Interface, *types.Basic, *types.Struct:
+				return true
+			}
+			return false
+		case *types.Basic:
+			return true
+		case *types.Pointer:
+			if n, ok := u.Elem().(*types.Named); ok && !inRepo(n) {
+				return true
+			}
+			return false
+		case *types.Interface:
+			return u.NumMethods() == 0 && false
+		}
+		return false
+	}
+	if recv != nil && !safe(recv) {
+		return false
+	}
+	for _, p := range params {
+		if !safe(p) {
+			return false
+		}
+	}
+	return true
+}
+
+func (fv *FV) opaqueExternalCall(st *State, name string, results *types.Tuple) []Outcome {
+	fv.trusted["external call without a contract, treated as opaque (arbitrary result, no effect on repository state): "+name] = true
+	var res []Value
+	for i := 0; i < results.Len(); i++ {
+		t := results.At(i).Type()
+		v := fv.freshValue("ext_"+sanitize(name), t)
+		fv.assumeType(st, v, t)
+		res = append(res, v)
+	}
+	return []Outcome{{st: st, results: res}}
 }
 
 // bindContract builds the specification environment for a contract applied to arguments.
